@@ -335,6 +335,18 @@ func (l *log) GetByTime(start time.Time) (message.Message, error) {
 
 		switch msg, err := rdr.GetByTime(ts, tctx); err {
 		case nil:
+			// messages with the same time might span segments, prefer the oldest one
+			for j := i - 1; j >= 0 && msg.Offset == l.readers[j+1].GetOffset(); j-- {
+				prev, err := l.readers[j].GetByTime(ts, tctx)
+				if err == index.ErrTimeAfterEnd || err == index.ErrTimeIndexEmpty || err == index.ErrTimeBeforeStart {
+					// all messages in the older segment are before this time
+					// (or, when times are not ordered across segments, after it)
+					break
+				} else if err != nil {
+					return message.Invalid, err
+				}
+				msg = prev
+			}
 			return msg, nil
 		case index.ErrTimeBeforeStart:
 			// not in this segment, try the rest
